@@ -15,7 +15,9 @@ MARGIN = Fraction(1, 2 ** 40)        # relative distance of cy² from _EPS² bel
 NULL = {"xy": 2, "xz": 1, "yz": 0}
 INPL = {"xy": (0, 1), "xz": (0, 2), "yz": (1, 2)}
 
-RULE = ("cases = (plane, storage mode se3|quat, 1..6 poses, optional timestamps, 1..3 project calls); planar poses on the 1° grid "
+RULE = ("cases = (plane, construction route poses_se3-only | xyz+quat, views read before the first project() ∈ {none, positions, quaternions, both}, "
+        "1..8 poses, optional timestamps, 1..3 project calls with no view read in between; all 9 plane pairs × 2 routes × 4 read sets systematically); "
+        "exact gimbal-lock attitudes (R00 = R10 = 0, the 8 axis-aligned ones) for every plane and route; planar poses on the 1° grid "
         "(−180°,180°] for each plane + random headings, general poses (uniform rotations, translations 1e-3..1e6), gimbal-lock "
         "attitudes (pitch ±90° exact, rounded, and within 1e-16..1e-14 of it; branch compared when |cy²/_EPS² − 1| > 2⁻⁴⁰); "
         "positions compared exactly, rotation block against rotAbout(cos φ, sin φ) with φ = atan2 of the model's exact direction "
@@ -89,9 +91,23 @@ def pose(R, t):
     return [list(R[0]) + [t[0]], list(R[1]) + [t[1]], list(R[2]) + [t[2]], [0.0, 0.0, 0.0, 1.0]]
 
 
+READS = ("none", "pos", "quat", "both")
+PLANES = ("xy", "xz", "yz")
+
+
+def exact_gimbal_rots():
+    """the 8 axis-aligned attitudes with R00 == R10 == 0 exactly (body x axis onto ±z)"""
+    out = []
+    for sgn in (1.0, -1.0):
+        for c, s in ((1.0, 0.0), (0.0, 1.0), (-1.0, 0.0), (0.0, -1.0)):
+            out.append([[0.0, -s, sgn * c], [0.0, c, sgn * s], [-sgn, 0.0, 0.0]])
+    return out
+
+
 def finish_case(r, c):
     n = len(c["poses"])
-    c["mode"] = r.choice(["se3", "quat"])
+    c["mode"] = r.choice(["se3", "se3", "quat"])
+    c["reads"] = r.choice(READS)
     c["stamps"] = [float(i) * 0.1 + 1.5e9 for i in range(n)] if r.random() < 0.5 else None
     c["calls"] = r.choice([[c["plane"]], [c["plane"], c["plane"]], [c["plane"], r.choice(list(NULL))],
                            [c["plane"], r.choice(list(NULL)), r.choice(list(NULL))]])
@@ -107,6 +123,21 @@ def gen_cases(ctx):
            "stamps": None, "calls": ["xz", "xz"], "corpus": "F1-within-90"}
     yield {"kind": "planar", "plane": "xy", "deg": [120.0], "poses": [planar_pose("xy", 120.0, 1.0, 3.0)], "mode": "quat",
            "stamps": [0.0], "calls": ["xy", "yz"], "corpus": "xy-120"}
+    # refusal histories: construction route × views read before the first project() × all 9 plane pairs
+    # (nothing is read between the calls), with and without timestamps
+    for mode in ("se3", "quat"):
+        for reads in READS:
+            for p1 in PLANES:
+                for p2 in PLANES:
+                    stamps = [0.0, 0.5] if r.random() < 0.5 else None
+                    yield {"kind": "general", "plane": p1, "deg": None, "poses": [pose(quat_rot(r), tvec(r)) for _ in range(2)],
+                           "mode": mode, "reads": reads, "stamps": stamps, "calls": [p1, p2] + ([r.choice(PLANES)] if r.random() < 0.3 else [])}
+    # exact gimbal-lock attitudes (R00 == R10 == 0 exactly), every plane, both storage modes
+    for plane in PLANES:
+        for mode in ("se3", "quat"):
+            rots = exact_gimbal_rots()
+            yield {"kind": "gimbal", "plane": plane, "deg": None, "poses": [pose(R, tvec(r)) for R in rots], "how": ["exact"] * len(rots),
+                   "mode": mode, "reads": r.choice(READS), "stamps": None, "calls": [plane]}
     # planar poses on the 1° grid over (−180°, 180°], every plane, chunks of 6 poses
     for plane in ("xy", "xz", "yz"):
         degs = [float(d) for d in range(-179, 181)]
@@ -168,17 +199,25 @@ def quat_of(R):
 
 
 def snapshot(tr):
-    return {"poses": [np.array(p, dtype=float).tolist() for p in tr.poses_se3],
-            "xyz": np.array(tr.positions_xyz, dtype=float).tolist(),
-            "quat": np.array(tr.orientations_quat_wxyz, dtype=float).tolist(),
-            "stamps": (np.array(tr.timestamps, dtype=float).tolist() if hasattr(tr, "timestamps") else None),
-            "n": int(tr.num_poses)}
+    """all observable views; an exception while reading a view is recorded, not raised"""
+    out = {"errors": []}
+    def get(name, f):
+        try:
+            out[name] = f()
+        except Exception as e:  # e.g. LinAlgError from the quaternion conversion of a NaN matrix
+            out[name] = None
+            out["errors"].append(f"{name}: {type(e).__name__}: {e}")
+    get("poses", lambda: [np.array(p, dtype=float).tolist() for p in tr.poses_se3])
+    get("xyz", lambda: np.array(tr.positions_xyz, dtype=float).tolist())
+    get("quat", lambda: np.array(tr.orientations_quat_wxyz, dtype=float).tolist())
+    get("stamps", lambda: (np.array(tr.timestamps, dtype=float).tolist() if hasattr(tr, "timestamps") else None))
+    get("n", lambda: int(tr.num_poses))
+    return out
 
 
-def run_impl_(case):
-    from evo.core import trajectory
-    from evo.core.trajectory import Plane, PosePath3D, PoseTrajectory3D, TrajectoryException
-    P = {"xy": Plane.XY, "xz": Plane.XZ, "yz": Plane.YZ}
+def build(case):
+    """a fresh object by the construction route of the case; `reads` = views read before the first project()"""
+    from evo.core.trajectory import PosePath3D, PoseTrajectory3D
     poses = [np.array(p, dtype=float) for p in case["poses"]]
     kw = {}
     if case["mode"] == "se3":
@@ -190,18 +229,43 @@ def run_impl_(case):
         tr = PoseTrajectory3D(timestamps=np.array(case["stamps"]), **kw)
     else:
         tr = PosePath3D(**kw)
-    out = {"before": snapshot(tr), "calls": []}
-    for k, pl in enumerate(case["calls"]):
+    return tr
+
+
+def read_views(tr, reads):
+    if reads in ("pos", "both"):
+        tr.positions_xyz
+    if reads in ("quat", "both"):
+        tr.orientations_quat_wxyz
+
+
+def run_impl_(case):
+    import warnings
+    from evo.core.trajectory import Plane, TrajectoryException
+    P = {"xy": Plane.XY, "xz": Plane.XZ, "yz": Plane.YZ}
+    reads = case.get("reads", "none")
+    with warnings.catch_warnings():
+        warnings.simplefilter("ignore")
+        out = {"before": snapshot(build(case)), "calls": []}          # twin: the object under test is not read
+        # twin projected once: the state after the first projection
+        b = build(case)
+        read_views(b, reads)
+        b.project(P[case["calls"][0]])
+        out["after"] = snapshot(b)
         try:
-            tr.project(P[pl])
-            out["calls"].append("OK")
-        except TrajectoryException:
-            out["calls"].append("REFUSED")
-        if k == 0:
-            out["after"] = snapshot(tr)
-            ok, details = tr.check()
-            out["evo_check"] = bool(ok)
-    out["final"] = snapshot(tr)
+            out["evo_check"] = bool(b.check()[0])
+        except Exception as e:
+            out["evo_check"] = f"{type(e).__name__}: {e}"
+        # object under test: the whole call history, no view is read between the calls
+        tr = build(case)
+        read_views(tr, reads)
+        for pl in case["calls"]:
+            try:
+                tr.project(P[pl])
+                out["calls"].append("OK")
+            except TrajectoryException:
+                out["calls"].append("REFUSED")
+        out["final"] = snapshot(tr)
     return out
 
 
@@ -211,7 +275,7 @@ def pose12(m):
 
 
 def model_lines(case, impl):
-    if "crash" in impl:
+    if "crash" in impl or impl["before"]["poses"] is None:
         return []
     lines = [f"C14 hist {len(case['calls'])} " + " ".join(case["calls"])]
     for p in impl["before"]["poses"]:
@@ -241,11 +305,16 @@ def judge(ctx, case, impl, outs):
     plane = case["plane"]
     k = NULL[plane]
     ctx.count("dist", f"{case['kind']}:{plane}:{case['mode']}")
+    ctx.count("dist", f"route:{case['mode']}{'+stamps' if case['stamps'] is not None else ''}:reads={case.get('reads', 'none')}:calls={len(case['calls'])}")
     if "crash" in impl:
         ctx.fail(case, "no-unexpected-exception", impl["crash"], {"plane": plane})
         ctx.record(case, False)
         return
     before, after = impl["before"], impl["after"]
+    if not outs or after["poses"] is None or len(after["poses"]) != len(before["poses"]):
+        oracle(ctx, case, impl)
+        ctx.record(case, False)
+        return
     # ---- correspondence
     m_hist = outs[0].split()
     if m_hist != impl["calls"]:
@@ -256,6 +325,9 @@ def judge(ctx, case, impl, outs):
         mt = [core.parse_rat(x) for x in tok[0:3]]
         xsq, xneg, y, gimbal, margin = core.parse_rat(tok[3]), tok[4] == "1", core.parse_rat(tok[5]), tok[6] == "1", core.parse_rat(tok[7])
         pa = after["poses"][i]
+        if not all(math.isfinite(x) for row in pa for x in row):
+            ctx.mismatch(case, f"pose {i}: projected pose has non-finite entries", pa, None)
+            continue
         if [frac(pa[r][3]) for r in range(3)] != mt:
             ctx.mismatch(case, f"pose {i}: projected position differs from zeroNormal", [pa[r][3] for r in range(3)], [str(x) for x in mt])
         if margin <= MARGIN:
@@ -293,12 +365,26 @@ def is_planar_input(plane, M):
     return M[k][k] == 1.0
 
 
+def same_snapshot(a, b):
+    """equality of two snapshots, NaN-tolerant (NaN entries are reported by valid-rigid-pose)"""
+    import json
+    return json.dumps(a, sort_keys=True) == json.dumps(b, sort_keys=True)
+
+
 def oracle(ctx, case, impl):
     plane = case["plane"]
     k = NULL[plane]
     i0, i1 = INPL[plane]
     before, after, final = impl["before"], impl["after"], impl["final"]
     base = {"plane": plane}
+    # evo must not raise while its views are read, before or after the projection
+    for name, snap in (("before", before), ("after the first projection", after), ("after the last call", final)):
+        if snap["errors"]:
+            ctx.fail(case, "no-unexpected-exception", f"reading the views {name}: " + "; ".join(snap["errors"]), base)
+    if isinstance(impl["evo_check"], str):
+        ctx.fail(case, "no-unexpected-exception", f"check() after projection: {impl['evo_check']}", base)
+    if before["poses"] is None or after["poses"] is None or after["n"] is None:
+        return
     # count, order, timestamps
     if after["n"] != before["n"] or len(after["poses"]) != len(before["poses"]):
         ctx.fail(case, "count-unchanged", f"{before['n']} poses before, {after['n']} after", base)
@@ -310,6 +396,9 @@ def oracle(ctx, case, impl):
         # heading of a planar input beyond ±90° ⇔ its cosine entry is negative
         cb, sb = extract_cs(plane, [row[:3] for row in pb[:3]])
         tags["heading_beyond_90"] = bool(cb < 0)
+        if not all(math.isfinite(x) for row in pa for x in row):
+            ctx.fail(case, "valid-rigid-pose", f"pose {i}: non-finite entries after projection: {[row[:3] for row in pa[:3]]}", tags)
+            continue
         if pa[k][3] != 0.0:
             ctx.fail(case, "out-of-plane-zero", f"pose {i}: coordinate {k} is {pa[k][3]!r} after projection", tags)
         if pa[i0][3] != pb[i0][3] or pa[i1][3] != pb[i1][3]:
@@ -340,6 +429,8 @@ def oracle(ctx, case, impl):
                          f"pose {i} lies in the {plane} plane (heading {math.degrees(math.atan2(sb, cb)):.6f}°) but is changed by {d:.3e}: "
                          f"heading after projection {math.degrees(math.atan2(se, ce)):.6f}°", tags)
         # cached views regenerated
+        if after["xyz"] is None or after["quat"] is None:
+            continue
         if after["xyz"][i] != [pa[0][3], pa[1][3], pa[2][3]]:
             ctx.fail(case, "views-consistent", f"pose {i}: positions_xyz {after['xyz'][i]} ≠ translation of poses_se3", tags)
         w, x, y, z = after["quat"][i]
@@ -348,14 +439,14 @@ def oracle(ctx, case, impl):
               [2 * (x * z - y * w), 2 * (y * z + x * w), 1 - 2 * (x * x + y * y)]]
         if max(abs(Rq[a][b] - pa[a][b]) for a in range(3) for b in range(3)) > 1e-12:
             ctx.fail(case, "views-consistent", f"pose {i}: orientations_quat_wxyz does not describe the projected rotation", tags)
-    if not impl["evo_check"]:
+    if impl["evo_check"] is False:
         ctx.fail(case, "valid-rigid-pose", "evo's own check() rejects the projected trajectory", base)
     # one-shot
     if impl["calls"][0] != "OK":
         ctx.fail(case, "first-projection-carried-out", "the first project() was refused", base)
     if any(c != "REFUSED" for c in impl["calls"][1:]):
         ctx.fail(case, "second-projection-refused", f"calls {case['calls']} → {impl['calls']}", base)
-    if final != after:
+    if all(c == "REFUSED" for c in impl["calls"][1:]) and not same_snapshot(final, after):
         ctx.fail(case, "second-projection-refused", "a refused project() call changed the object", base)
 
 
@@ -388,6 +479,8 @@ def shrink(case):
         c = dict(case); c["stamps"] = None; yield c
     if case["mode"] == "quat":
         c = dict(case); c["mode"] = "se3"; yield c
+    if case.get("reads", "none") != "none":
+        c = dict(case); c["reads"] = "none"; yield c
     for i, p in enumerate(case["poses"]):
         if any(p[a][3] not in (0.0, 1.0) for a in range(3)):
             c = dict(case)
